@@ -254,8 +254,12 @@ def main():
                       "comments (\\, *, $), explicit +, omitted coefficient 1, repeated and zero terms, all number spellings, bound statement forms incl. implicit "
                       "defaults, RANGES of both signs, BV/UI/LI/MI/PL/FR/FX bounds, RHS on the objective, blank set names, missing final newline; real reader -> "
                       "dump -> equiv_by_name with equal row/column counts; non-trivial = string consumed / file compared; distinct by text")
-    ck.cov["not_covered"] = ("no token-level model of the LP/MPS readers: the file-level statement is explored, not proved; blanks between 'inf' and '<=' are "
-                             "required by the reader and always rendered; SOS sections and REFROW are not rendered")
+    ck.cov["rule"] += ("; part 0: extracted LP reader model IO/LpRead.read_lp_res vs mpq_QSget_prob on rendered files, token-mutated files (mostly rejected) and "
+                       "files written by the library: both reject, or both deliver problems equiv_by_name in both directions with equal counts")
+    ck.cov["not_covered"] = ("the file-level statement is proved for the LP reader MODEL and the writer's layout family only (C10_lp_written_file_partial, "
+                             "C10_lp_expr_any_wrapping); for the other lexical freedoms (keyword spellings, comments, explicit '+', repeated terms, decimal / exponent "
+                             "spellings inside files, several bound statements per line) the model is compared with the library file by file, not proved; "
+                             "no model of the MPS reader; blanks between 'inf' and '<=' are required by the reader and always rendered; SOS / REFROW not rendered")
     ck.assumptions = ["Coq kernel; extraction; OCaml", "renderers of checks/io_gen.py are independent of the Coq development", "harness h_io.c"]
     cleanup_scratch()
     ck.finish(trusted_base=["coqc 8.16.1 kernel", "OCaml extraction", "harness/h_io.c + checks/io_common.py + checks/io_gen.py + checks/C10.py"])
